@@ -13,7 +13,7 @@ CHECKS = {
     "C05": {
         "text": "Proof (Verus, unbounded in every list length) of the RFC 7606 classifier: validate_update is verified in place against the property — it never resets the session; if any recorded attribute error is not discardable (discardable = optional non-transitive by the attribute's definition, by the received flags only for unknown codes, or AS4_PATH / AS4_AGGREGATOR) or a mandatory attribute (ORIGIN, AS_PATH, next hop except Flowspec) is missing, no Reach comes out and every announced block comes out as a withdrawal; withdrawals of the same UPDATE always come out; whatever route is kept is an announced one carrying the UPDATE's attributes with exactly LOCAL_PREF / ORIGINATOR_ID / CLUSTER_LIST removed when the peer is external; a well-formed UPDATE keeps its routes. Kani proves the attribute flag table the Verus proof assumes (all 256 codes). Found and fixed F-C05-1.",
         "design_ref": "DESIGN.md §4 C05",
-        "note": "NOT covered: the parse side (parse_message recording each error with its code; session reset only for unparsable NLRI) — parse_message is outside CBMC's reach and not yet under a Verus contract. Trusted: see coverage.trusted_base.",
+        "note": "Parse side: parse_message is verified to hand on only well-flagged known attributes and unknown optional transitive ones (wrong-flag and unrecognised well-known attributes never reach the attribute list). NOT covered: that each such fault is also *recorded* in error_attrs (needs a functional spec of the attribute walk; not built), and that the session is reset only for unparsable NLRI. Trusted: see coverage.trusted_base.",
         "technique": "deductive verification with Verus of the real validate_update (loop invariants, closure contracts) + complete Kani harness for the flag table",
     },
     "C06": {
@@ -47,10 +47,10 @@ CHECKS = {
         "technique": "deductive verification with Verus: OrdSpecImpl postcondition on the real RibEntry::cmp, spec lemmas for the order",
     },
     "C03": {
-        "text": "Kani/CBMC on the real decoders compiled inside the packet crate. BFD: Message::decode is loop-free and proved total and exact for every datagram of 0..=300 symbolic bytes (complete: accepts exactly the well-formed packets, reports the wire fields, never panics). RTR: Message::frame_length proved against its full contract (complete, loop-free: a frame is reported only if 8 <= length <= buffered bytes; 'need more bytes' only when no complete PDU is buffered; impossible lengths are errors), Message::from_bytes total on complete frames up to 40 bytes (bounded), RtrCodec::decode's framing loop with from_bytes replaced by 'any outcome' (bounded, buffers <= 24 bytes): a message only after consuming > 0 bytes, a complete PDU is consumed, skipped or rejected. BGP: PeerCodec::try_parse framing with the body parser replaced by 'any outcome' (bounded buffers <= 40 bytes, length field and extended-message flag fully symbolic). Bounded harnesses are reported separately and not counted as proved.",
+        "text": "Kani/CBMC on the real decoders compiled inside the packet crate. BFD: Message::decode is loop-free and proved total and exact for every datagram of 0..=300 symbolic bytes (complete: accepts exactly the well-formed packets, reports the wire fields, never panics). RTR: Message::frame_length proved against its full contract (complete, loop-free: a frame is reported only if 8 <= length <= buffered bytes; 'need more bytes' only when no complete PDU is buffered; impossible lengths are errors), Message::from_bytes total on complete frames up to 40 bytes (bounded), RtrCodec::decode's framing loop with from_bytes replaced by 'any outcome' (bounded, buffers <= 24 bytes): a message only after consuming > 0 bytes, a complete PDU is consumed, skipped or rejected. BGP: PeerCodec::try_parse framing with the body parser replaced by 'any outcome' (bounded buffers <= 40 bytes, length field and extended-message flag fully symbolic), and — Verus, unbounded — the whole of PeerCodec::parse_message (all five message types, 450 lines, three loops with invariants and termination measures) verified in place: every addition, subtraction, cast, slice, index and unwrap is an obligation, so no message of up to 65535 bytes can panic it or make it loop. Bounded harnesses are reported separately and not counted as proved.",
         "design_ref": "DESIGN.md §4 C03, §3.2",
-        "note": "NOT covered yet: PeerCodec::parse_message and the per-family NLRI / attribute / capability body decoders (CBMC does not terminate on parse_message even with callees stubbed: 20-minute timeouts measured; planned for the Verus lane). Trusted: Kani/CBMC, byteorder/bytes/std compiled to goto as is, allocation never fails, format! stubbed (message text irrelevant). Found and fixed F-C03-2/3 (RTR decoder stall, fix: commit 0227dc4).",
-        "technique": "Kani/CBMC harnesses on the real decoder functions: loop-free full-domain proofs (BFD, RTR framing) plus bounded stand-ins (RTR bodies, BGP framing)",
+        "note": "NOT covered: the per-family NLRI decoders (decode_nlri_list and below) and the attribute / capability body decoders — leaf byte-level code behind assumed 'total, cursor stays inside the buffer' contracts. Trusted: see coverage.trusted_base (Cursor model, byteorder read helpers, R11b shims). Found and fixed F-C03-1 (u16 overflow in the UPDATE length check, b1d9580) and F-C03-2/3 (RTR decoder stall, 0227dc4).",
+        "technique": "Verus on the real parse_message (panic-freedom, termination) + Kani/CBMC harnesses on the real BFD / RTR / framing functions (complete where loop-free, else bounded)",
     },
     "C16": {
         "text": "Proof of the containment and same-direction clauses: IpNet::contains is proved (Kani, complete: every IPv4 / IPv6 prefix without host bits, every mask and address) to hold exactly when the leading mask bits agree and never across families — the test that admits a connection under a dynamic-neighbour prefix; PeerFsm::on_connected (Verus) rejects a second connection in the same direction with CloseConnection and leaves the existing one untouched.",
